@@ -36,8 +36,8 @@ _p("C04", ["shexing", "c20_config"], ["schemas"],
    "adversarial mixes x configurations x formats: bounded (schemas.py).")
 _p("C05", [], ["schemas"], MON)
 _p("C06", ["c06_nt"], ["readers"], "wip")
-_p("C07", [], ["readers"], MON)
-_p("C08", [], ["channels"], MON)
+_p("C07", ["c07_ttl"], ["readers"], "wip")
+_p("C08", ["c08_channels", "c06_nt"], ["channels"], "wip")
 _p("C09", ["instances", "profiling", "shexing"], ["pipeline"],
    "Deductive: two counting steps commute (lemma over the step contract of pass 2: same counters, same nodes, same class lists in either order); node and "
    "class names are opaque atoms in the verified counting code, so consistent renaming of blank nodes cannot be observed (parametricity of the accepted "
@@ -62,7 +62,7 @@ _p("C14", ["instances", "profiling"], ["pipeline"],
    "for IRI subjects) and leaves the outgoing features of the object untouched; both threshold filters carry the same contract. The three-run metamorphic "
    "relation (with / without inverse_paths / reversed graph): " + MON)
 _p("C15", [], ["schemas"], MON)
-_p("C16", ["instances"], ["pipeline"],
+_p("C16", ["instances", "c16_ns"], ["pipeline"],
    "Deductive: counter invariant of the instance cap (every class counter <= limit, an instantiation triple is rejected exactly when its class is full, early "
    "stop only when the number of full classes reaches the number of target classes), proved per step with frames. Namespace filter and composition: " + MON)
 _p("C17", ["c17_min_iri"], ["schemas"],
